@@ -178,7 +178,7 @@ def make_kernels(cfg, settings):
     from ciderpress.dft import baselines as B
     from ciderpress.dft import transform_data as td
     from ciderpress.models.dft_kernel import DFTKernel, DFTKernel2
-    from ciderpress.models.kernels import DiffConstantKernel, DiffRBF
+    from ciderpress.models.kernels import DiffConstantKernel, DiffRBF, DiffWhiteKernel
 
     out = []
     for kc in cfg["kernels"]:
@@ -191,6 +191,9 @@ def make_kernels(cfg, settings):
             maps.append(td.UMap(3 + j, kc["gammas"][j]))
         fl = td.FeatureList(maps)
         kern = DiffConstantKernel(kc["scale"], constant_value_bounds="fixed") * DiffRBF(length_scale=np.asarray(kc["ls"][: fl.nfeat]), length_scale_bounds="fixed")
+        if kc.get("form") == "rbf+white":
+            # a white term: k(X, Y) has no nugget, k(X) alone would
+            kern = kern + DiffWhiteKernel(noise_level=kc.get("white", 1e-3), noise_level_bounds="fixed")
         if cfg["version"] == 1:
             k = DFTKernel(kern, fl, kc["mode"], B.BASELINE_CODES[kc["mul"]], B.BASELINE_CODES[kc["add"]], ctrl_tol=kc["ctrl_tol"], ctrl_nmax=kc["ctrl_nmax"], component=kc["component"])
         else:
@@ -245,6 +248,8 @@ def gen_cfg(rng):
                 "gammas": [rng.choice([0.25, 0.5, 1.0]) for _ in range(3)],
                 "ctrl_tol": rng.choice([1e-5, 1e-4, 1e-3]),
                 "ctrl_nmax": rng.randint(6, 24),
+                "form": rng.choice(["rbf", "rbf", "rbf", "rbf+white"]),
+                "white": rng.choice([1e-4, 1e-3, 1e-2]),
             }
         )
     # kernel order is free: a correlation kernel may precede the exchange kernel
@@ -311,7 +316,7 @@ def gen_history(seed):
     ops = []
     big_enough = [i for i, n_ in zip(ids, cfg["nsamps"]) if n_ >= 40] or ids  # control points come from real samples
     ctrl_ids = rng.sample(big_enough, rng.randint(1, min(3, len(big_enough))))
-    ops.append({"op": "ctrl", "ids": ctrl_ids, "reduce": bool(rng.chance(0.7)), "npick": rng.randint(5, 14), "pseed": rng.below(10**6)})
+    ops.append({"op": "ctrl", "ids": ctrl_ids, "reduce": bool(rng.chance(0.7)), "npick": rng.choice([1, 2, 3]) if rng.chance(0.12) else rng.randint(5, 14), "pseed": rng.below(10**6)})
     # store all systems, in batches, some twice
     order = list(ids)
     rng.shuffle(order)
@@ -325,10 +330,11 @@ def gen_history(seed):
         has_x = any(kc["component"] == "x" for kc in cfg["kernels"])
         ops.append({"op": "store", "ids": batch, "get_correlation": bool(rng.chance(0.75)) or not has_x})
     nrx = 0
+    many = bool(rng.chance(0.03))  # a training set of realistic size (hundreds of reactions)
     for _ in range(rng.randint(3, 9)):
         c = rng.weighted([("add", 5), ("fit", 3), ("reset", 1), ("lik", 2), ("store", 1)])
         if c == "add":
-            ops.append({"op": "add", "rxns": [gen_reaction(rng, cfg, ids) for _ in range(rng.randint(1, 5))]})
+            ops.append({"op": "add", "rxns": [gen_reaction(rng, cfg, ids) for _ in range(rng.randint(60, 150) if many else rng.randint(1, 5))]})
             nrx += 1
             if rng.chance(0.07):
                 # the call dies part-way (out of memory, Ctrl-C): the session recovers the
